@@ -39,17 +39,34 @@ def cases(draw, path):
     nfix = 0
     if kind == 'partial':
         nfix = draw(st.integers(0, len(sig['req'])))
-    rest = dict(sig, req=sig['req'][nfix:])
+    pkw = []
+    if kind == 'partial':
+        # the partial may also override keyword-only defaults and pre-set extra keywords
+        for n, d in sig['kwopt']:
+            if draw(st.booleans()):
+                pkw.append([n, draw(vals)])
+        if sig['varkw'] and draw(st.integers(0, 2)) == 0:
+            pkw.append(['w', draw(vals)])
+    rest = rest_sig(sig, nfix, pkw)
     b = draw(S.bindings(rest, vals))
+    others = draw(st.lists(S.bindings(rest, vals), max_size=3))
     km = draw(st.sampled_from(KEYMAPS))
     if path == 'call':
         # std caches need hashable keys; safe caches take anything
         module = 'safe' if (km['cls'] == 'keymap' and not km['flat']) else draw(st.sampled_from(['std', 'safe']))
     else:
         module = draw(st.sampled_from(['std', 'safe']))
-    return {'sig': sig, 'kind': kind, 'nfix': nfix, 'fixed': [draw(vals) for _ in range(nfix)], 'binding': b,
+    return {'sig': sig, 'kind': kind, 'nfix': nfix, 'fixed': [draw(vals) for _ in range(nfix)], 'pkw': pkw, 'binding': b, 'others': others,
             'form1': draw(st.integers(0, 255)), 'form2': draw(st.integers(0, 255)), 'keymap': km, 'path': path,
             'module': module, 'algo': draw(st.sampled_from(['inf', 'lru', 'lfu', 'mru', 'rr']))}
+
+
+def rest_sig(sig, nfix, pkw):
+    """the signature left after the partial fixed nfix leading positionals and the keywords pkw"""
+    over = dict((n, v) for n, v in pkw)
+    rest = dict(sig, req=sig['req'][nfix:])
+    rest['kwopt'] = [[n, over.get(n, d)] for n, d in sig['kwopt']]
+    return rest
 
 
 def strata(tier):
@@ -65,7 +82,7 @@ def build_target(case, log):
         return fn, (S.Holder(),), fn
     fn = S.make_plain(sig, body)
     if case['kind'] == 'partial':
-        p = functools.partial(fn, *[V.build(s) for s in case['fixed']])
+        p = functools.partial(fn, *[V.build(s) for s in case['fixed']], **dict((n, V.build(v)) for n, v in case.get('pkw', [])))
         return p, (), p
     return fn, (), fn
 
@@ -76,47 +93,75 @@ def run_case(case):
     log = []
     target, prefix, oracle_fn = build_target(case, log)
     sig = case['sig']
-    rest = dict(sig, req=sig['req'][case['nfix']:])
+    rest = rest_sig(sig, case['nfix'], case.get('pkw', []))
+    others = [S.spell_full(rest, ob, 0) for ob in case.get('others', [])]
+    others = [(prefix + oa, ok) for oa, ok in others if 'w' not in ok or not any(n == 'w' for n, _ in case.get('pkw', []))]
     built = {}
     a1, k1 = S.spell_full(rest, case['binding'], case['form1'], built)
     a2, k2 = S.spell_full(rest, case['binding'], case['form2'], built)
     a1, a2 = prefix + a1, prefix + a2
     b1, b2 = S.bound(oracle_fn, a1, k1), S.bound(oracle_fn, a2, k2)
-    classes = ['path:' + case['path'], 'kind:' + case['kind'], 'keymap:%s%s' % (case['keymap']['cls'], '' if case['keymap']['flat'] else '-nonflat'),
+    classes = ['path:' + case['path'], 'kind:' + case['kind'], 'others:%d' % len(others), 'partial_kw:%s' % bool(case.get('pkw')), 'keymap:%s%s' % (case['keymap']['cls'], '' if case['keymap']['flat'] else '-nonflat'),
                'typed:%s' % case['keymap']['typed']]
     if b1 is None or b2 is None or not S.bound_equal(b1, b2):
         # generator soundness: both spellings must be valid and bind identically
         return [Discrepancy('C09/harness/spellings-not-equivalent', '%r %r vs %r %r' % (a1, k1, a2, k2))], None, classes
     km = H.make_keymap(case['keymap'])
     path = case['path']
-    key1 = key2 = None
+    key1 = key2 = key3 = None
     try:
         if path == 'fkey' or path == 'call':
             dec = H.decorator_class(case['module'], case['algo'])(keymap=km)
             f = dec(target)
             if path == 'fkey':
-                key1, key2 = f.key(*a1, **k1), f.key(*a2, **k2)
+                for oa, ok in others[:2]:
+                    f.key(*oa, **ok)
+                key1 = f.key(*a1, **k1)
+                for oa, ok in others[2:]:
+                    f.key(*oa, **ok)
+                key2 = f.key(*a2, **k2)
+                # a fresh twin function with no history must produce the same key (keys do not depend on what was keyed before)
+                target2 = build_target(case, [])[0]
+                key3 = H.decorator_class(case['module'], case['algo'])(keymap=km)(target2).key(*a2, **k2)
             else:
+                for oa, ok in others[:2]:
+                    f(*oa, **ok)
+                del log[:]
                 r1 = f(*a1, **k1)
                 n1 = len(log)
+                for oa, ok in others[2:]:
+                    f(*oa, **ok)
+                n1b = len(log)
                 r2 = f(*a2, **k2)
-                n2 = len(log)
+                n2 = len(log) - n1b          # evaluations caused by the second spelling itself
                 info = f.info()
                 usable = True
                 try:
                     hash(f.key(*a1, **k1))
                 except Exception:
                     usable = False
-                if usable and (n1 != 1 or n2 != 1 or info.hit != 1 or r1 != r2):
+                if usable and (n1 > 1 or n2 != 0 or info.hit < 1 or r1 != r2):
                     out.append(Discrepancy('C09/call/second-spelling-recomputed/%s' % kmtag(case), 'f(*%r, **%r) then f(*%r, **%r): evaluations %d, info %r; keys %r / %r' % (
                         a1, k1, a2, k2, n2, info, f.key(*a1, **k1), f.key(*a2, **k2))))
                 classes.append('call_usable:%s' % usable)
         elif path == 'keygen':
             kg = klepto.keygen(keymap=km)(target)
-            key1, key2 = kg(*a1, **k1), kg(*a2, **k2)
+            for oa, ok in others[:2]:
+                kg(*oa, **ok)
+            key1 = kg(*a1, **k1)
+            for oa, ok in others[2:]:
+                kg(*oa, **ok)
+            key2 = kg(*a2, **k2)
+            key3 = klepto.keygen(keymap=km)(build_target(case, [])[0])(*a2, **k2)
         else:
+            for oa, ok in others[:2]:
+                klepto._keygen(target, (), *oa, **ok)
             x1 = klepto._keygen(target, (), *a1, **k1)
+            for oa, ok in others[2:]:
+                klepto._keygen(target, (), *oa, **ok)
             x2 = klepto._keygen(target, (), *a2, **k2)
+            x3 = klepto._keygen(build_target(case, [])[0], (), *a2, **k2)
+            key3 = km(*x3[0], **x3[1])
             key1, key2 = km(*x1[0], **x1[1]), km(*x2[0], **x2[1])
     except Exception as e:
         out.append(Discrepancy('C09/%s/raised/%s' % (path, H.exc_sig(e)), '%r for %r %r / %r %r' % (e, a1, k1, a2, k2)))
@@ -130,6 +175,14 @@ def run_case(case):
         if not same:
             out.append(Discrepancy('C09/%s/keys-differ/%s' % (path, kmtag(case)),
                                    'same binding %r: spelling (*%r, **%r) -> %r ; spelling (*%r, **%r) -> %r' % (b1, a1, k1, key1, a2, k2, key2)))
+    if path != 'call' and not out:
+        try:
+            same3 = (key3 == key2) and type(key3) is type(key2)
+        except Exception:
+            same3 = False
+        if not same3:
+            out.append(Discrepancy('C09/%s/key-depends-on-history/%s' % (path, kmtag(case)),
+                                   'binding %r keyed after %d other calls -> %r ; on a fresh identical function -> %r' % (b2, len(others), key2, key3)))
     # non-triviality
     more_than_order = (len(a1) != len(a2)) or (set(k1) != set(k2))
     rich = bool(sig['opt'] or S.has_kwonly(sig) or len(case['binding'].get('xkw', [])) >= 2)
